@@ -359,6 +359,13 @@ func (o *Oracle) judgeMediation(e *Exchange, pol *Policy, path string) {
 		}
 	}
 
+	// C19.A4: after a completed sign-out a saved copy of the session does not survive a due check
+	if t, ok := o.signedOut[S.RefreshToken]; ok && (due == "refresh" || due == "validate") && sv.first != "unavail" && e.At > t {
+		o.violate(e, "C19.A4-old-session-refused-after-signout", fmt.Sprintf("a %s check was due %v after the user signed out (token revoked at the identity provider), and the saved session was still served", due, e.At-t))
+	} else if ok {
+		o.res.cover("C19.A4|reuse-after-signout|due=" + due)
+	}
+
 	// group facts after this request
 	groupsNow := S.Groups
 	for _, ob := range sv.obs {
@@ -417,6 +424,10 @@ func (o *Oracle) judgeRefusal(e *Exchange, pol *Policy, sv *sessionVerdict, skip
 		return
 	}
 	due := o.dueFor(S, at)
+	if _, ok := o.signedOut[S.RefreshToken]; ok {
+		o.res.cover("C19.A4|reuse-after-signout-refused|due=" + due)
+		o.res.probe("old_session_refused_after_signout")
+	}
 	if due == "refresh" || due == "validate" {
 		_, first, firstEP := o.readCheck(e, pol, due)
 		key := fmt.Sprintf("C05|due=%s|first=%s@%s", due, first, firstEP)
